@@ -787,7 +787,25 @@ func main() {
 		fmt.Fprintf(&b, "def %s : List String :=\n  %s\n\n", mangle(f.key()), leanList(k.toks))
 		names = append(names, f.key())
 	}
-	fmt.Fprintf(&b, "def skeletonIndex : List String :=\n  %s\n\nend GoSup.%s\n", leanList(names), *ns)
+	fmt.Fprintf(&b, "def skeletonIndex : List String :=\n  %s\n\n", leanList(names))
+	// the function inventory of every anchored package (a new method on a modelled type changes it)
+	byPkg := map[string][]string{}
+	var pkgs []string
+	for _, n := range names {
+		pk := n
+		if i := strings.Index(n, "."); i >= 0 {
+			pk = n[:i]
+		}
+		if _, ok := byPkg[pk]; !ok {
+			pkgs = append(pkgs, pk)
+		}
+		byPkg[pk] = append(byPkg[pk], n)
+	}
+	sort.Strings(pkgs)
+	for _, pk := range pkgs {
+		fmt.Fprintf(&b, "def inventory_%s : List String :=\n  %s\n\n", pk, leanList(byPkg[pk]))
+	}
+	fmt.Fprintf(&b, "end GoSup.%s\n", *ns)
 	write(*out, "Skeleton.lean", b.String())
 
 	// ---- Fsm.lean : transitions.Typical of the pinned go-fsm module
